@@ -100,8 +100,9 @@ type addrState struct {
 	// that may belong to the previous chain (started at the instant of a reset,
 	// or started before a reset and finished after it).
 	sLo, sHi, fLo, fHi int
-	epoch              int // number of chain resets so far
-	ghostLo            int // k range of the chain ended at ghostAt (same-instant tolerance)
+	staleSeq           uint64 // attempts started before this instant may have lost their claim on the chain
+	epoch              int    // number of chain resets so far
+	ghostLo            int    // k range of the chain ended at ghostAt (same-instant tolerance)
 	ghostHi            int
 	ghostAt            time.Duration
 	inflight           int
@@ -154,7 +155,8 @@ func (o *oracle) driverDialFailed(a *addrState) {
 // attempt is the token of one running attempt.
 type attempt struct {
 	epoch     int
-	ambiguous bool // started at the instant of a reset: may belong to either chain
+	ambiguous bool   // started at the instant of a reset: may belong to either chain
+	startSeq  uint64 // global sequence number at its start
 }
 
 func (a *addrState) krange() (int, int) {
@@ -267,7 +269,7 @@ func (o *oracle) predictTimer(variant int) (time.Duration, bool) {
 func (o *oracle) attemptStart(a *addrState) attempt {
 	now := simrt.Elapsed()
 	a.nAttempts++
-	tok := attempt{epoch: a.epoch, ambiguous: a.ghostAt == now}
+	tok := attempt{epoch: a.epoch, ambiguous: a.ghostAt == now, startSeq: simrt.Seq()}
 	simrt.Eventf("attempt start addr=%s n=%d seq=%d inflight=%d fails=%d..%d starts=%d..%d paused=%v", a.name, a.nAttempts, simrt.Seq(), a.inflight, a.fLo, a.fHi, a.sLo, a.sHi, o.pausedDefinite)
 	if o.stopped {
 		a.inflight++
@@ -388,7 +390,9 @@ search:
 
 func (o *oracle) attemptEnd(a *addrState, tok attempt, ok bool) {
 	a.inflight--
-	sure := tok.epoch == a.epoch && !tok.ambiguous
+	// an attempt that was already running when an attempt of an earlier chain
+	// succeeded may have lost its claim on the chain with that success
+	sure := tok.epoch == a.epoch && !tok.ambiguous && tok.startSeq > a.staleSeq
 	simrt.Eventf("attempt end addr=%s ok=%v seq=%d inflight=%d current-chain=%v", a.name, ok, simrt.Seq(), a.inflight, sure)
 	if o.stopped {
 		return
@@ -418,6 +422,7 @@ func (o *oracle) attemptEnd(a *addrState, tok attempt, ok bool) {
 			// may not end the current chain
 			simrt.Probe("old_attempt_succeeded_after_reset")
 			a.sLo, a.fLo = 0, 0
+			a.staleSeq = simrt.Seq()
 			// two attempts for one address can overlap (Schedule while the first
 			// is still running); a Schedule pending across the second success may
 			// be re-armed from that instant just as from the first one
